@@ -689,6 +689,39 @@ func (w *c07World) apply(op c07Op) bool {
 		_ = sm.GetClientRegistry().List()
 		_ = sm.GetClientRegistry().ListAuthenticated()
 		_ = sm.GetConnectionStats()
+	case "loginfw":
+		// control login as X whose handshake REPLY cannot be written (transient transport error).
+		// Counted, not judged: whichever order the server uses (reply before or after committing the
+		// registry update), the resulting states satisfy the statement — the new connection did
+		// present valid credentials and is alive, the previous holder (if evicted) is closed and
+		// unlisted; that the client lost a working connection for a login it never saw succeed is an
+		// availability matter outside this property
+		if w.conc || c.pipe == nil {
+			return false
+		}
+		var holder *c07Conn
+		if cur := sm.GetControlConnectionByClientID(x); cur != nil {
+			if h := w.ownerOf(cur); h != nil && h != c {
+				holder = h
+			}
+		}
+		w.log(op.String() + " reply write fails")
+		c.pipe.failWrites.Store(true)
+		err := w.handshake(c, x, "ok", "control")
+		c.pipe.failWrites.Store(false)
+		w.run.Count("logins_with_failing_reply", 1)
+		if err == nil {
+			c.ctlAs.Store(x)
+		} else if k := w.regEntry(c); k != nil && k.Authenticated && k.ClientID == x && sm.GetControlConnectionByClientID(x) == k {
+			c.ctlAs.Store(x) // committed although the reply failed
+			w.run.Count("obs_login_committed_although_reply_failed", 1)
+		}
+		if holder != nil {
+			w.run.Count("logins_with_failing_reply_while_client_online", 1)
+			if d, _ := holder.dead(); d {
+				w.run.Count("obs_live_holder_evicted_by_login_whose_reply_failed", 1)
+			}
+		}
 	case "notify":
 		// configuration push to an online client (NotifyClientUpdate after a mapping change) whose
 		// write hits a transient error; needs cloud control (it is dereferenced unconditionally)
@@ -966,7 +999,7 @@ func c07Alphabet(nslots, nclients int, reduced bool) []c07Op {
 		for x := 0; x < nclients; x++ {
 			out = append(out, c07Op{"login", s, x}, c07Op{"auth", s, x})
 			if !reduced {
-				out = append(out, c07Op{"tlogin", s, x})
+				out = append(out, c07Op{"tlogin", s, x}, c07Op{"loginfw", s, x})
 			}
 		}
 	}
@@ -1143,6 +1176,7 @@ func TestVerifC07RegistryRandom(t *testing.T) {
 	run.Floor("cloud_faults_on_disconnect", 50)
 	run.Floor("reuse_registered", 20)
 	run.Floor("config_push_write_failures", 50)
+	run.Floor("logins_with_failing_reply_while_client_online", 20)
 	run.Floor("register_at_cap", 2) // eviction of the oldest connection at the control-connection cap
 }
 
